@@ -132,18 +132,19 @@ pub(crate) fn run<'tcx>(
         let mut termini = Vec::new();
 
         {
+            let ty = tcx.resolve_type(id);
+
+            // A disabled type is not named at all (its name may not even be one JS allows)
+            let attrs = ty.attrs();
+            if attrs.disable {
+                continue;
+            }
+
             let ty_name = formatter.fmt_type_name(id);
             let type_name: String = ty_name.into();
 
             let js_file_name =
                 formatter.fmt_file_name(&type_name.clone(), &crate::js::FileType::Module);
-
-            let ty = tcx.resolve_type(id);
-
-            let attrs = ty.attrs();
-            if attrs.disable {
-                continue;
-            }
 
             if let Some(custom_func) = &attrs.demo_attrs.custom_func {
                 let custom_func_filename = custom_func.to_string();
